@@ -491,7 +491,17 @@ func ruleMetaNumericTable(r *Run, rule string, numF *ssa.Function, isTag func(ss
 		if ph, isPhi := cc.Args[2].(*ssa.Phi); isPhi {
 			for i, e := range ph.Edges {
 				ov, _ := constString(e)
-				rowsT = append(rowsT, rowT{ov, reach[ph.Block().Preds[i]]})
+				// operators that choose this edge and go on to reach the call
+				both := valSet{}
+				for op := range reach[ph.Block().Preds[i]] {
+					if reach[call.Block()][op] {
+						both[op] = true
+					}
+				}
+				if len(both) == 0 {
+					continue
+				}
+				rowsT = append(rowsT, rowT{ov, both})
 			}
 		} else {
 			ov, _ := constString(cc.Args[2])
@@ -581,9 +591,24 @@ func ruleMetaCategoricalTable(r *Run, rule string, catF *ssa.Function, isTag fun
 		if classifyErr(ret) != ErrNil {
 			continue
 		}
-		o := origin(resultValue(ret, 0))
-		for op := range reach[ret.Block()] {
-			byOp[op] = append(byOp[op], o)
+		// a single exit fed by several answers (`result := clone-or-new; return result`): one origin per phi operand
+		var leaves []ssa.Value
+		var expand func(v ssa.Value, depth int)
+		expand = func(v ssa.Value, depth int) {
+			if ph, isPhi := v.(*ssa.Phi); isPhi && depth < 4 {
+				for _, e := range ph.Edges {
+					expand(e, depth+1)
+				}
+				return
+			}
+			leaves = append(leaves, v)
+		}
+		expand(resultValue(ret, 0), 0)
+		for _, lf := range leaves {
+			o := origin(lf)
+			for op := range reach[ret.Block()] {
+				byOp[op] = append(byOp[op], o)
+			}
 		}
 	}
 	site := w.Pos(catF.Pos()) + " " + name
@@ -620,6 +645,29 @@ func ruleMetaCategoricalTable(r *Run, rule string, catF *ssa.Function, isTag fun
 			return strings.Contains(a, ".categorical[fmt.Sprintf(") && (strings.Contains(a, "P1.Field") || strings.Contains(a, "P2.Field"))
 		}
 		ok := isEntry(arg)
+		if !ok {
+			// the keys were gathered into a list first: the operand is the entry of an element of that list, and every
+			// element of the list is key(field, value)
+			var v ssa.Value = call.Common().Args[1]
+			if ex, isEx := v.(*ssa.Extract); isEx {
+				v = ex.Tuple
+			}
+			if lk, isLk := v.(*ssa.Lookup); isLk && strings.HasSuffix(c.S(lk.X), ".categorical") {
+				if ld, isLd := lk.Index.(*ssa.UnOp); isLd && ld.Op == token.MUL {
+					if ia, isIA := ld.X.(*ssa.IndexAddr); isIA && c.idx(ia.Index) == "range" {
+						if elems, okE := sliceElems(ia.X); okE && len(elems) > 0 {
+							ok = true
+							for _, e := range elems {
+								es := c.S(e)
+								if !strings.HasPrefix(es, "fmt.Sprintf(") || !(strings.Contains(es, "P1.Field") || strings.Contains(es, "P2.Field")) {
+									ok = false
+								}
+							}
+						}
+					}
+				}
+			}
+		}
 		if !ok {
 			// the entries were gathered into a local list first: every element of that list is such an entry
 			if ld, isLd := call.Common().Args[1].(*ssa.UnOp); isLd && ld.Op == token.MUL {
